@@ -14,15 +14,17 @@
   the pair level (`Proofs/PrattInv`: pest's Pratt algorithm inverts the printer's
   parenthesisation, for all operator nestings, unary minus on numerals vs negative numerals,
   intervals on either side).
-  `accepted_text_roundtrip` states it for every accepted text: the tree of an accepted text always
-  has names of the grammar's lexical shape (`parseProgram_shaped`), so the only hypothesis is that
-  no name is `not`.
-  Known finding (the excluded case): a symbol or predicate named `not` (accepted when no white
-  space follows it) is printed with a following space and then rejected.
+  `accepted_text_roundtrip` states it for every accepted text, without any hypothesis: the tree of
+  an accepted text always has names of the grammar's lexical shape other than `not`
+  (`accepted_text_wf`).
+  Repaired defect (`fix:` a1dc9d0, formerly a known finding): a symbol or predicate named `not` was
+  accepted when no white space followed it (`p(not+1).`, `not :- q.`), printed with a following
+  space and then rejected; `not` is no longer a name (`not_is_no_name`).
 -/
 import AnthemModel.Model.Print
 import AnthemModel.Proofs.AspProgramRT
 import AnthemModel.Proofs.AspImage
+import AnthemModel.Proofs.AspImageWF
 namespace Anthem.C14
 open Asp
 
@@ -37,15 +39,22 @@ theorem print_parse_print (p : Program) (h : p.WF) :
     (parseProgram (printProgram p)).map printProgram = some (printProgram p) := by
   rw [roundtrip p h]; rfl
 
-/-- **The property, for every accepted text.** If `text` is accepted with tree `p` and no symbolic
-    constant or predicate symbol of `p` is `not`, then the printed text of `p` is accepted, parses to
-    `p`, and prints to itself. (That the tree of an accepted text has names of the grammar's lexical
-    shape is `parseProgram_shaped`; it needs no hypothesis.) -/
-theorem accepted_text_roundtrip (text : String) (p : Program) (hp : parseProgram text = some p) (hn : p.NoNot) :
+/-- every tree the parser builds is well-formed: names of the grammar's lexical shape, none of them
+    `not` (since fix a1dc9d0) -/
+theorem accepted_text_wf (text : String) (p : Program) (hp : parseProgram text = some p) : p.WF :=
+  parseProgram_shapedW hp
+
+/-- **The property, for every accepted text, no hypothesis.** If `text` is accepted with tree `p`,
+    then the printed text of `p` is accepted, parses to `p`, and prints to itself. -/
+theorem accepted_text_roundtrip (text : String) (p : Program) (hp : parseProgram text = some p) :
     parseProgram (printProgram p) = some p ∧
       (parseProgram (printProgram p)).map printProgram = some (printProgram p) :=
-  have h := Program.wf_of p (parseProgram_shaped hp) hn
+  have h := accepted_text_wf text p hp
   ⟨roundtrip p h, print_parse_print p h⟩
+
+/-- the symbol lexer never returns the name `not` -/
+theorem not_is_no_name {cs l r : List Char} (h : lexSymbol cs = some (l, r)) : l ≠ ['n', 'o', 't'] :=
+  lexSymbol_not_not h
 
 /-- the term level on its own: the pair sequence of a printed term is Pratt-parsed back to the term -/
 theorem pratt_inverts_parenthesisation (t : Term) : pratt (flat t) = some t := pratt_flat_eq t
@@ -129,9 +138,9 @@ theorem constraint_prints_neck (b : List BodyAtom) :
 theorem fact_prints_no_neck (a : Asp.Atom) : Rule.print ⟨.basic a, []⟩ = a.print ++ "." := by
   simp [Rule.print, Head.print]
 
-/-- Counterexample to the unconditional round trip (known finding): the term `not + 1` (symbol
-    named `not`, accepted as `not+1`) is printed with a space after `not`, which the grammar reads
-    as a negation keyword. -/
+/-- Why `not` must not be a name (the repaired defect): the term `not + 1` (symbol named `not`,
+    formerly accepted as `not+1`) is printed with a space after `not`, which the grammar reads as a
+    negation keyword. -/
 theorem keyword_not_printed_with_space :
     Term.print (.bin .add (.pre (.sym "not")) (.pre (.num 1))) = "not + 1" := by decide
 
